@@ -17,6 +17,8 @@ import ODataVerif.Spec.Subst
 import ODataVerif.Spec.RefPrinter
 import ODataVerif.Model.Printer
 import ODataVerif.Model.PyVal
+import ODataVerif.Model.Sql
+import ODataVerif.Spec.SqlLex
 open OQ OQ.Wire
 
 def encTok : Tok → String
@@ -94,6 +96,25 @@ def encPyValue : PyValue → String
   | .duration us => s!"duration {us}"
   | .unmodelled => "unmodelled"
 
+def dialectOf : String → Option Dialect
+  | "std" => some .std | "sqlite" => some .sqlite | "athena" => some .athena | _ => none
+
+def encSqlTok : Spec.SqlTok → String
+  | .str s => "S" ++ encStr s
+  | .qid s => "Q" ++ encStr s
+  | .num s => "N" ++ encStr s
+  | .word s => "W" ++ encStr s
+  | .op s => "O" ++ encStr s
+  | .lp => "(" | .rp => ")" | .comma => "," | .dot => "."
+
+def encSqlToks : Option (List Spec.SqlTok) → String
+  | some ts => "ok " ++ " ".intercalate (ts.map encSqlTok)
+  | none => "reject"
+
+/-- alias argument: "-" = no alias, otherwise hex of the alias -/
+def decAlias (a : String) : Option (Option Str) :=
+  if a == "-" then some none else (decStr a).map some
+
 def handle (args : List String) : String :=
   match args with
   | ["ping"] => "pong"
@@ -139,6 +160,15 @@ def handle (args : List String) : String :=
         let md := if mode == "full" then Spec.Mode.full else if mode == "printer" then Spec.Mode.printer else Spec.Mode.minimal
         hexOfString (String.ofList (Spec.render (Spec.printToks st md e))))
   | ["rtrender", w] => withExpr w (fun e => hexOfString (String.ofList (rtRender e)))
+  | ["sql", d, a, w] =>
+      (match dialectOf d, decAlias a with
+       | some dl, some al =>
+           withExpr w (fun e => encOutcome (fun t => hexOfString (String.ofList t)) (sqlText pyCharEnv.isDigit dl al e))
+       | _, _ => "bad-arg")
+  | ["sqllex", h] =>
+      (match decStr h with
+       | some s => encSqlToks (Spec.sqlLex s)
+       | none => "bad-arg")
   | ["pyval", k, h] =>
       (match LitKind.ofClassName k, decStr h with
        | some kind, some v => encOutcome encPyValue (pyVal kind v)
